@@ -53,6 +53,8 @@ def lin_of(f, e):
 
 
 def run(prog, rep):
+    from rules import csv_options
+    csv_options.check(prog, rep, 'R9.8')
     rep.rule('R9.1', 'cell descriptor discipline: every (pointer,length) / (begin,end) built from CValueMeta covers exactly [Offset, Offset+Size)', floor=4)
     rep.rule('R9.2', 'WriteEscapedValue quotes a field containing a double quote, the separator, CR or LF, for every separator; inner quotes are doubled', floor=5)
     rep.rule('R9.3', 'row width is compared with the header / previous row on every row path and a mismatch throws (2 readers, 2 writers)', floor=4)
